@@ -13,6 +13,20 @@ Definition ret_wf (rt : ret) : bool := match rt with RetStatus c _ => code_ok c 
 (* [half]: the client has half-closed; [sent]: the header block has left the server; [infl]: it
    has left but the client has not yet seen anything that follows it (a message, Header()): whether
    a cancel at that moment overtakes it depends on the transport, so no cancel there *)
+(* what a handler may still do after the client's context has ended, up to its return *)
+Fixpoint wf_post (sh : shape) (half : bool) (l : list step) : bool :=
+  match l with
+  | [] => false
+  | st :: rest =>
+      match st with
+      | SetH _ | SendH _ | SetT _ => wf_post sh half rest
+      | S2C _ => srv_has_stream sh && wf_post sh half rest
+      | RecvEOF => srv_has_stream sh && negb half && wf_post sh half rest
+      | Ret rt => ret_wf rt && match rest with [] => true | _ => false end
+      | _ => false
+      end
+  end.
+
 Fixpoint wf_steps (sh : shape) (half sent infl : bool) (l : list step) : bool :=
   match l with
   | [] => false                                  (* a call ends with the handler returning or a cancel *)
@@ -29,6 +43,7 @@ Fixpoint wf_steps (sh : shape) (half sent infl : bool) (l : list step) : bool :=
       | RecvEOF => srv_has_stream sh && half && wf_steps sh half sent infl rest
       | CHeader => negb (is_invoke sh) && sent && wf_steps sh half sent false rest
       | Ret rt => ret_wf rt && match rest with [] => true | _ => false end
+      | CtxEnd _ => negb infl && wf_post sh half rest
       | Cancel _ => negb infl && match rest with [] => true | _ => false end
       end
   end.
@@ -41,10 +56,18 @@ Definition wf (sc : scenario) : bool :=
 
 (* class 1: the client cancels after the handler has set trailer metadata: the wrapper's Trailer()
    reads the handler's map, a real connection never delivers trailers to a cancelled call *)
+Fixpoint post_sets_trailer (l : list step) : bool :=
+  match l with
+  | [] => false
+  | SetT t :: rest => negb (md_empty t) || post_sets_trailer rest
+  | _ :: rest => post_sets_trailer rest
+  end.
+
 Fixpoint k1_steps (trl : bool) (l : list step) : bool :=
   match l with
   | [] => false
   | SetT t :: rest => k1_steps (trl || negb (md_empty t)) rest
+  | CtxEnd _ :: rest => trl || post_sets_trailer rest
   | Cancel _ :: _ => trl
   | _ :: rest => k1_steps trl rest
   end.
@@ -60,10 +83,28 @@ Fixpoint k2_steps (sh : shape) (l : list step) : bool :=
   | _ :: rest => k2_steps sh rest
   end.
 
+(* class 4: the handler calls SendHeader after the client's context has ended, headers not sent
+   before: the wrapper latches them and the client's Header() shows them, a real connection delivers
+   nothing any more *)
+Fixpoint k4_post (sent : bool) (l : list step) : bool :=
+  match l with
+  | [] => false
+  | SendH _ :: rest => negb sent || k4_post true rest
+  | _ :: rest => k4_post sent rest
+  end.
+Fixpoint k4_steps (sent : bool) (l : list step) : bool :=
+  match l with
+  | [] => false
+  | CtxEnd _ :: rest => k4_post sent rest
+  | S2C _ :: rest | SendH _ :: rest => k4_steps true rest
+  | _ :: rest => k4_steps sent rest
+  end.
+
 Definition known_class (sc : scenario) : option Z :=
   if precancel sc then None
   else if k1_steps false (steps sc) then Some 1
   else if k2_steps (shp sc) (steps sc) then Some 2
+  else if k4_steps false (steps sc) then Some 4
   else None.
 
 Definition no_known (sc : scenario) : bool := match known_class sc with None => true | Some _ => false end.
